@@ -13,7 +13,15 @@ JOBSETS = {
     },
 }
 
+JOBSETS['bytes'] = {
+    'gen': {'families': {'quick': ['bytes8'], 'thorough': ['bytes12']}, 'bounds': {'quick': '2,2,2,2', 'thorough': '2,2,2,2'}},
+    'kinds': ['bytes'],
+    'cfg': {'quick': {'timeout_s': 300, 'solver_timeout_ms': 10000}, 'thorough': {'timeout_s': 3000, 'solver_timeout_ms': 60000}},
+    'wall': {'quick': 1500, 'thorough': 7200},
+}
+
 PROPS = {
+    'C05': {'jobsets': ['bytes'], 'phases': ['decode']},
     'C01': {'jobsets': ['codec'], 'phases': ['decode']},
     'C02': {'jobsets': ['codec'], 'phases': []},
     'C04': {'jobsets': ['codec'], 'phases': ['encode']},
